@@ -4,6 +4,7 @@ import (
 	"fmt"
 	"go/token"
 	"go/types"
+	"strings"
 
 	"golang.org/x/tools/go/ssa"
 
@@ -243,7 +244,16 @@ func (pr *prover) lowerBound(v ssa.Value, pt point, depth int) (int64, bool) {
 	switch x := v.(type) {
 	case virtualLen:
 		upd(0)
+	case *ssa.Call:
+		if cn := an.CallName(&x.Call); strings.HasPrefix(cn, "strings.Index") || strings.HasPrefix(cn, "strings.LastIndex") {
+			upd(-1) // documented: an index into the string, or -1
+		}
 	case *ssa.Extract:
+		if c, ok := x.Tuple.(*ssa.Call); ok && x.Index == 1 {
+			if cn := an.CallName(&c.Call); cn == "unicode/utf8.DecodeRuneInString" || cn == "unicode/utf8.DecodeLastRuneInString" {
+				upd(0) // documented: width in bytes, 0..len(s)
+			}
+		}
 		// index of a range over a string: 0 <= k
 		if nx, ok := x.Tuple.(*ssa.Next); ok && nx.IsString && x.Index == 1 {
 			upd(0)
@@ -407,6 +417,19 @@ func (pr *prover) le(a, b term, pt point, depth int, seen map[[2]ssa.Value]bool)
 			}
 		}
 	case *ssa.Extract:
+		// width returned by utf8.DecodeRuneInString(s) is at most len(s)
+		if c, ok := x.Tuple.(*ssa.Call); ok && x.Index == 1 && b.v != nil {
+			if cn := an.CallName(&c.Call); cn == "unicode/utf8.DecodeRuneInString" || cn == "unicode/utf8.DecodeLastRuneInString" {
+				if lc, ok := b.v.(*ssa.Call); ok {
+					if bi, ok := lc.Call.Value.(*ssa.Builtin); ok && bi.Name() == "len" && eqVal(lc.Call.Args[0], c.Call.Args[0]) && a.off <= b.off {
+						return true
+					}
+				}
+				if vl, ok := b.v.(virtualLen); ok && eqVal(vl.x, c.Call.Args[0]) && a.off <= b.off {
+					return true
+				}
+			}
+		}
 		// index k of `for k := range s` over a string: k <= len(s) - 1
 		if nx, ok := x.Tuple.(*ssa.Next); ok && nx.IsString && x.Index == 1 {
 			if rg, ok := nx.Iter.(*ssa.Range); ok && b.v != nil {
